@@ -19,15 +19,10 @@ static double now_wall()
 static std::string g_verif = "/verif";
 static std::string g_shm;
 
-struct CheckPart { std::string family; int quick; int thorough; };
-struct CheckDef {
-	std::string prop;
-	std::string level;
-	std::vector<CheckPart> parts;
-	std::string rule;
-};
-
-std::vector<CheckDef>& check_table();
+#ifdef SIM_SAN
+extern "C" __attribute__((used)) const char* __asan_default_options() { return "exitcode=77:detect_leaks=0:abort_on_error=0:allocator_may_return_null=1:handle_abort=0"; }
+extern "C" __attribute__((used)) const char* __ubsan_default_options() { return "halt_on_error=1:exitcode=77:print_stacktrace=0"; }
+#endif
 
 static uint64_t run_seed_of(uint64_t base, const std::string& family, uint64_t index)
 {
